@@ -355,12 +355,12 @@ Proof. destruct ks; [intros H; exfalso; apply H; reflexivity|reflexivity]. Qed.
 Theorem gql_order_answer_l st q :
   store_ok st -> single_hops (q_pat q) = true -> single_labels (q_pat q) = true -> pat_fresh (q_pat q) = true ->
   no_type_case st (q_pat q) = true -> directed (q_pat q) = true ->
-  plain_core q = true -> order_core q = true -> q_order q <> [] -> q_skip q = None -> q_limit q = None ->
+  plain_core q = true -> order_core q = true -> q_order q <> [] ->
   match q_ret q with RPlain items _ => props_on_nodes (q_pat q) items | _ => true end = true ->
   keys_fresh (chain_cols_pat (q_pat q)) (map fst (sort_keys (q_order q))) ->
   plan_rows st (gql_plan_of q) = answer st q.
 Proof.
-  intros Hok H1 H2 Hf H3 H4 Hp Hoc Hone Hsk Hli Hpn Hkf. unfold plain_core in Hp. apply andb_true_iff in Hp. destruct Hp as [Hp Hw].
+  intros Hok H1 H2 Hf H3 H4 Hp Hoc Hone Hpn Hkf. unfold plain_core in Hp. apply andb_true_iff in Hp. destruct Hp as [Hp Hw].
   destruct (q_ret q) as [items dd|] eqn:Hr; [|discriminate Hp]. destruct dd; [discriminate Hp|].
   destruct (chain_obindings_nc st (q_pat q) Hf) as (t0 & Hs0 & Hwf0 & Hnc0 & Hc0 & He0).
   assert (Hv : forall x, List.In x (pat_vars (q_pat q)) -> List.In x (filter nonanon (cols t0))).
@@ -399,18 +399,55 @@ Proof.
   set (t2 := mkT (cols t1) (map (fun r => map to_gen (f r)) sorted)) in *.
   assert (Hsort' : sem_ops st (LSort keys (where_plan (q_where q) (chain_plan (q_pat q)))) = Ok t2).
   { cbn [sem_ops]. rewrite Hs. cbn [rbind]. exact Hsort. }
-  assert (Hsub : forall r, List.In r sorted -> List.In r (rows t)) by (intros r Hrs; apply (stable_sort_in le_rows _ r Hrs)).
+  set (sorted0 := sorted).
+  set (cutl := fun (A : Type) (l : list A) => spec_limit (q_limit q) (spec_skip (q_skip q) l)).
+  assert (Hcutmap : forall (A B : Type) (g : A -> B) (l : list A), cutl B (map g l) = map g (cutl A l)).
+  { intros A B g l. unfold cutl. destruct (q_limit q), (q_skip q); cbn [spec_limit spec_skip]; rewrite <- ?firstn_map', <- ?skipn_map'; reflexivity. }
+  assert (Hcutin : forall (A : Type) (l : list A) x, List.In x (cutl A l) -> List.In x l).
+  { intros A l x Hx. unfold cutl in Hx. destruct (q_limit q), (q_skip q); cbn [spec_limit spec_skip] in Hx;
+      try (apply in_firstn' in Hx); try (apply in_skipn' in Hx); exact Hx. }
+  clear sorted0. rename sorted into sorted_all. set (sorted := cutl row sorted_all).
+  set (t2c := mkT (cols t1) (map (fun r => map to_gen (f r)) sorted)).
+  assert (Hcut : sem_ops st (opt_limit (q_limit q) (opt_skip (q_skip q) (LSort keys (where_plan (q_where q) (chain_plan (q_pat q)))))) = Ok t2c).
+  { assert (Hfix : forall rs : list row, Forall (fun r => map to_gen r = r) rs ->
+                   forall n, skip_rows n rs = skipn n rs /\ limit_rows n rs = firstn n rs).
+    { intros rs Hfx n. split.
+      - unfold skip_rows. destruct (Nat.eqb n 0) eqn:E; [apply Nat.eqb_eq in E; subst n; reflexivity|].
+        clear E. revert n. induction Hfx as [|r rs' Hrr _ IH]; intros n; destruct n; cbn [skipn map]; try reflexivity.
+        + rewrite Hrr. f_equal. apply (IH 0%nat).
+        + apply IH.
+      - unfold limit_rows. destruct rs as [|r0 rs0] eqn:Ers; [destruct n; reflexivity|]. rewrite <- Ers in *.
+        destruct (Nat.leb n 0) eqn:E0; [apply Nat.leb_le in E0; assert (n = 0%nat) by lia; subst n; reflexivity|].
+        destruct (Nat.leb (List.length rs) n) eqn:E1; [apply Nat.leb_le in E1; rewrite firstn_all2 by exact E1; reflexivity|].
+        clear E0 E1 Ers. revert n. induction Hfx as [|r rs' Hrr _ IH]; intros n; destruct n; cbn [firstn map]; try reflexivity.
+        rewrite Hrr. f_equal. apply IH. }
+    assert (Hfx2 : Forall (fun r => map to_gen r = r) (rows t2)).
+    { unfold t2. cbn [rows mkT]. apply Forall_forall. intros r Hr2. apply in_map_iff in Hr2. destruct Hr2 as (r0 & <- & _). apply to_gen_idem. }
+    assert (Hrows2 : rows t2c = cutl row (rows t2)).
+    { unfold t2c, t2, sorted. cbn [rows mkT]. symmetry. apply Hcutmap. }
+    replace t2c with (mkT (cols t1) (cutl row (rows t2))) by (unfold t2c in *; cbn [rows mkT] in Hrows2; rewrite <- Hrows2; reflexivity).
+    unfold cutl.
+    destruct (q_limit q) as [n|], (q_skip q) as [k|]; cbn [opt_limit opt_skip spec_limit spec_skip];
+      rewrite ?sem_ops_limit, ?sem_ops_skip, Hsort'; cbn [rbind]; unfold limit_tbl, skip_tbl; cbn [rows cols mkT].
+    - assert (Hfx3 : Forall (fun r => map to_gen r = r) (skipn k (rows t2))).
+      { apply Forall_forall. intros r Hr3. apply in_skipn' in Hr3. rewrite Forall_forall in Hfx2. apply Hfx2. exact Hr3. }
+      rewrite (proj1 (Hfix (rows t2) Hfx2 k)). rewrite (proj2 (Hfix _ Hfx3 n)). reflexivity.
+    - rewrite (proj2 (Hfix (rows t2) Hfx2 n)). reflexivity.
+    - rewrite (proj1 (Hfix (rows t2) Hfx2 k)). reflexivity.
+    - reflexivity. }
+  assert (Hsub : forall r, List.In r sorted -> List.In r (rows t)).
+  { intros r Hrs. apply (stable_sort_in le_rows _ r). apply (Hcutin row sorted_all r Hrs). }
   set (envs := map (row_env (cols t)) sorted).
-  destruct (return_sem_gen st items t2 envs (filter nonanon (cols t))) as (t' & Hret & Hout).
-  - intros r2 Hr2. cbn [t2 rows cols mkT] in *. apply in_map_iff in Hr2. destruct Hr2 as (r & <- & Hrin).
+  destruct (return_sem_gen st items t2c envs (filter nonanon (cols t))) as (t' & Hret & Hout).
+  - intros r2 Hr2. cbn [t2c rows cols mkT] in *. apply in_map_iff in Hr2. destruct Hr2 as (r & <- & Hrin).
     destruct (Hf1 r (Hsub r Hrin)) as [Hl Hold]. split; [rewrite map_length; exact Hl|].
     intros x Hx. apply filter_In in Hx. destruct Hx as [Hx _]. rewrite col_cell_to_gen, (Hold x Hx).
     destruct Hwf as [_ Hwr]. destruct (Hwr r (Hsub r Hrin)) as [Hlr Her].
     destruct (col_cell_in (cols t) r x Hx Hlr) as (c & _ & Hcc & Hcin). rewrite Hcc. rewrite Forall_forall in Her.
     pose proof (Her c Hcin) as Hce. destruct c; cbn in Hce |- *; [exact I|exact I|destruct Hce].
-  - intros x Hx. cbn [t2 cols mkT]. rewrite Hc1. apply in_or_app. left. apply filter_In in Hx. apply Hx.
+  - intros x Hx. cbn [t2c cols mkT]. rewrite Hc1. apply in_or_app. left. apply filter_In in Hx. apply Hx.
   - rewrite forallb_forall in Hp |- *. intros e He'. eapply core_item_mono; [|apply Hp; exact He']. intros x Hx. rewrite Hc. apply Hv. exact Hx.
-  - unfold envs. cbn [t2 rows cols mkT]. apply Forall2_map_both. intros r Hrin.
+  - unfold envs. cbn [t2c rows cols mkT]. apply Forall2_map_both. intros r Hrin.
     pose proof (Hsub r Hrin) as Hin. destruct Hwf as [Hnd Hwr]. destruct (Hwr r Hin) as [Hl Hent].
     destruct (Hf1 r Hin) as [_ Hold].
     transitivity (map (ival st (cols t) r) items).
@@ -428,18 +465,22 @@ Proof.
     + apply map_ext_in. intros e He'. apply ival_item_val; try assumption.
       rewrite forallb_forall in Hp. eapply core_item_mono; [|apply Hp; exact He']. intros x Hx. rewrite Hc. apply Hv. exact Hx.
   - (* assemble *)
-    unfold plan_rows, gql_plan_of. rewrite Hr, Hsk, Hli. cbn [opt_skip opt_limit]. rewrite (opt_sort_ne _ _ Hone). fold keys.
-    assert (Hfull : sem_ops st (LReturn (ret_items items) false (LSort keys (where_plan (q_where q) (chain_plan (q_pat q))))) = Ok t')
-      by (cbn [sem_ops]; cbn [sem_ops] in Hsort'; rewrite Hsort'; cbn [rbind]; rewrite Hret; reflexivity).
+    unfold plan_rows, gql_plan_of. rewrite Hr. rewrite (opt_sort_ne _ _ Hone). fold keys.
+    assert (Hfull : sem_ops st (LReturn (ret_items items) false (opt_limit (q_limit q) (opt_skip (q_skip q) (LSort keys (where_plan (q_where q) (chain_plan (q_pat q))))))) = Ok t').
+    { change (sem_ops st (LReturn (ret_items items) false ?i)) with (do t <- sem_ops st i; do r <- return_tbl st (ret_items items) t; if false then Ok (mkT (cols r) (distinct_rows (rows r))) else Ok r).
+      rewrite Hcut. cbn [rbind]. rewrite Hret. reflexivity. }
     rewrite Hfull, Hout.
     (* the declarative side *)
-    unfold answer. rewrite Hr, Hsk, Hli. cbn [rbind spec_skip spec_limit]. f_equal.
+    unfold answer. rewrite Hr. cbn [rbind]. f_equal.
     rewrite (spec_order_ne st _ _ Hone).
     rewrite <- (okeys_of_sort_keys (q_order q) Hoenv). fold keys.
     unfold spec_project.
     rewrite (stable_sort_map (fun en => (en, map (item_val st en) items)) _ (le_env st keys)).
     2:{ intros a b. unfold le_env. rewrite okeys_cmp_env. reflexivity. }
-    rewrite map_map. cbn [snd]. unfold project_envs, envs, sorted.
+    change (spec_limit (q_limit q) (spec_skip (q_skip q) ?l)) with (cutl _ l).
+    rewrite <- (Hcutmap _ _ snd), map_map. cbn [snd]. unfold project_envs, envs, sorted.
+    rewrite <- (Hcutmap _ _ (row_env (cols t))). rewrite <- (Hcutmap _ _ (fun en => map (item_val st en) items)).
+    f_equal. f_equal. unfold sorted_all.
     rewrite <- (stable_sort_map (row_env (cols t)) (le_env st keys) le_rows) by (intros a b; reflexivity).
     fold (tbl_envs t). rewrite He, Hob. reflexivity.
 Qed.
